@@ -199,6 +199,24 @@ func identReplay(mode string, raw json.RawMessage) hx.Result {
 				nt = "split|lenient"
 			}
 		}
+		// SenderID: a sender that starts with '@' is a user ID; ToUserID parses it in historical mode
+		if len(s) > 0 {
+			sid := spec.SenderID(s)
+			if sid.IsUserID() != (s[0] == '@') || sid.IsPseudoID() == sid.IsUserID() {
+				return fail("SenderID.IsUserID", r.KH, r.UH, "kind", fmt.Sprintf("IsUserID=%v IsPseudoID=%v", sid.IsUserID(), sid.IsPseudoID()))
+			}
+			u := sid.ToUserID()
+			got := verdictOf(u != nil)
+			if r.UH != "free" && r.UH != got {
+				return fail("SenderID.ToUserID", r.KH, r.UH, got, fmt.Sprintf("the grammar says %s, ToUserID gives %v", r.UH, u))
+			}
+			if u != nil && (u.String() != s || "@"+u.Local()+":"+string(u.Domain()) != s) {
+				return fail("SenderID.ToUserID", r.KH, r.UH, "parts", "parts do not re-concatenate")
+			}
+			if u != nil {
+				nt += "|sender"
+			}
+		}
 		return hx.Result{OK: true, NT: nt}
 	}
 }
